@@ -102,8 +102,10 @@ func init() {
 					newLockAnalysis(cc, []string{"lockc"}).ruleSingleSection(r, "LOCK-5", []*ssa.Function{cc.Func("lockc", "(*Bad).Twice"), cc.Func("lockc", "(*Good).Len")})
 				}, WantFail: []string{"lockc.(*Bad).Twice#critical-section"}, WantPassMin: 1},
 			{Name: "OWN-2", What: "Get hands ownership over: a block returned from the table has its entry deleted on every path (sibling cross-check over all Cache implementations)", Floor: 4,
-				Run:    func(c *Ctx, r *Rep, tier string) { ruleGetHandsOver(c, r, "OWN-2", discoverCaches(c, hts_cacheCfg)) },
-				Canary: func(cc *Ctx, r *Rep) { ruleGetHandsOver(cc, r, "OWN-2", discoverCaches(cc, cacheCfg{"cachec", "cachec", "Cache"})) }, WantFail: []string{"Sticky.Get#hand-over"}, WantPassMin: 2},
+				Run: func(c *Ctx, r *Rep, tier string) { ruleGetHandsOver(c, r, "OWN-2", discoverCaches(c, hts_cacheCfg)) },
+				Canary: func(cc *Ctx, r *Rep) {
+					ruleGetHandsOver(cc, r, "OWN-2", discoverCaches(cc, cacheCfg{"cachec", "cachec", "Cache"}))
+				}, WantFail: []string{"Sticky.Get#hand-over"}, WantPassMin: 2},
 			{Name: "CACHE-PUT-CAP", What: "Put inserts only with room left (len(table) compared with the capacity) or after an eviction", Floor: 4,
 				Run: func(c *Ctx, r *Rep, tier string) {
 					rulePutCapacity(c, r, "CACHE-PUT-CAP", "CACHE-PUT-REFUSE", discoverCaches(c, hts_cacheCfg))
